@@ -269,6 +269,94 @@ def c08_own_imports(V, tier):
     return len(ctx), meta
 
 
+def c04_own_imports(V, tier):
+    """C04 on the import universe: workspaces whose using file is a TEST MODULE that imports fixtures itself, plus a sibling test
+    module in the same directory that requests the same names WITHOUT importing them.  On disk, scanned.  Pure agreement, no
+    reference answer: `fixtures unused` (library) lists a project fixture exactly when no usage is among its references, and the
+    references of a definition are exactly the usages whose go-to-definition lands on it."""
+    meta = C.run_tlc("Imports", "Imports.cfg", workers=12, timeout=3600)
+    if not meta["ok"]:
+        raise C.ToolError("TLC on Imports failed: %s" % meta["errors"])
+    C.build_harness()
+    base = os.path.join(C.BUILD, "ws", "c04imp-%d" % os.getpid())
+    shutil.rmtree(base, ignore_errors=True)
+    cases = [c for c in C.tlc_cases(meta) if c["using"] == "ti"]
+    names = ["fa", "fb", "fc", "fp", "fz", "fr"]
+    sib_text = "def test_sibling(%s):\n    pass\n" % ", ".join(names)
+    hcases, ctx = [], {}
+    for n, c in enumerate(cases):
+        root = os.path.join(base, "i%d" % n)
+        uni = imp_universe(root)
+        files = {s: R.render_checked(uni, s, m) for s, m in c["ws"].items()}
+        for s, r in files.items():
+            os.makedirs(os.path.dirname(uni.paths[s]), exist_ok=True)
+            with open(uni.paths[s], "w") as fh:
+                fh.write(r.text)
+        sib = os.path.join(root, "R", "test_sibling.py")
+        with open(sib, "w") as fh:
+            fh.write(sib_text)
+        ops = [{"op": "scan", "root": root + "/R"}, {"op": "unused"}]
+        defs = []
+        for s, m in c["ws"].items():
+            for i, it in enumerate(m["items"]):
+                if it["k"] == "def":
+                    defs.append((s, i + 1, it["name"]))
+                    ops.append({"op": "refs", "path": uni.paths[s], "line1": files[s].item_line[i + 1], "name": it["name"]})
+        # go-to-definition from every parameter of the importing module's test and of the sibling's
+        it_idx = len(c["ws"]["ti"]["items"])
+        gotos = []
+        for j in range(1, 7):
+            ln, cs, ce = files["ti"].use_pos[(it_idx, "p", j)]
+            gotos.append((uni.paths["ti"], ln, cs))
+        col = len("def test_sibling(")
+        for nm in names:
+            gotos.append((sib, 1, col))
+            col += len(nm) + 2
+        for p, ln, cs in gotos:
+            ops.append({"op": "goto", "path": p, "line": ln - 1, "col": cs})
+        ctx[n] = (c, root, uni, files, defs, gotos)
+        hcases.append({"id": n, "ops": ops})
+    for res in C.run_harness(hcases, threads=8):
+        c, root, uni, files, defs, gotos = ctx[res["id"]]
+        r = res["res"]
+        V.count()
+        V.nontriv("ownimp04" + json.dumps(c["shape"], sort_keys=True))
+        unused = {(os.path.relpath(x["file"], root), x["name"]) for x in r[1]} if isinstance(r[1], list) else None
+        refs = {}
+        for k, (s, idx, nm) in enumerate(defs):
+            a = r[2 + k]
+            if isinstance(a, dict) and a.get("nodef"):
+                continue            # the module was not discovered by the scan (nobody imports it): no such definition in the index
+            refs[(s, idx, nm)] = {(os.path.relpath(u["file"], root), u["line"], u["sc"]) for u in a} if isinstance(a, list) else None
+        nav = {}
+        for k, (p, ln, cs) in enumerate(gotos):
+            a = r[2 + len(defs) + k]
+            if isinstance(a, dict) and "file" in a:
+                nav.setdefault((os.path.relpath(a["file"], root), a["line"]), set()).add((os.path.relpath(p, root), ln, cs))
+        ex = {"import_shape": c["shape"], "files": dict({os.path.relpath(uni.paths[s2], root): f.text for s2, f in files.items()},
+                                                         **{"R/test_sibling.py": sib_text})}
+        if unused is None or any(v is None for v in refs.values()):
+            V.violation(dict(ex, result=str(r)[:400]), "a query panicked on a workspace whose test module imports fixtures itself")
+            continue
+        for (s, idx, nm), rs in refs.items():
+            rel = os.path.relpath(uni.paths[s], root)
+            want_refs = nav.get((rel, files[s].item_line[idx]), set())
+            test_refs = {x for x in rs if x[0] in ("R/test_imp.py", "R/test_sibling.py")}
+            if test_refs != want_refs:
+                V.violation(dict(ex, definition=[rel, nm], references_from_the_two_test_modules=sorted(test_refs),
+                                 usages_navigating_to_it=sorted(want_refs)),
+                            "references of a definition are not the usages whose go-to-definition lands on it (test module importing fixtures itself)")
+                break
+            entry_refs = set().union(*[v for (s2, _, n2), v in refs.items() if s2 == s and n2 == nm])
+            listed = (rel, nm) in unused
+            if listed != (not entry_refs):
+                V.violation(dict(ex, definition=[rel, nm], listed_as_unused=listed, references=sorted(entry_refs)),
+                            "`fixtures unused` (library) disagrees with the reference lists (test module importing fixtures itself)")
+                break
+    shutil.rmtree(base, ignore_errors=True)
+    return len(ctx)
+
+
 def check_c14(tier):
     V = C.Verdict("C14", tier, "model_checking")
     meta = C.run_tlc("Imports", "Imports.cfg", workers=12, timeout=3600)
